@@ -109,10 +109,14 @@ def run(ck):
                   "node removal is not guarded by a test that the node holds no lock: deleting one iterator can release another iterator's lock", f.loc(bi))
 
         # the same removals, and the bookkeeping around them, through the conditions under which each site is reached
-        def reached_under(g, bb):
-            """[(callee name, fields of the receiver, truth value)] for the dominating bool switches with a single edge to bb"""
+        def reached_under(g, bb, same_loop=False):
+            """[(callee name, fields of the receiver, truth value)] for the dominating bool switches with a single edge to bb
+            (same_loop: only tests made in the same loop iteration, i.e. blocks that bb can reach again)"""
             out = []
+            again = g.reach_from(g.succ(bb)) if same_loop else None
             for (sb, val) in path_conditions(g, bb):
+                if again is not None and sb not in again:
+                    continue
                 st = g.term(sb)
                 o = g.origins(st["d"])
                 od = g.origins(st["d"], deep=True)
@@ -131,7 +135,7 @@ def run(ck):
         for n, (bi, t) in enumerate(rem):
             if bi not in f.reach_from(f.succ(bi)):
                 continue
-            cond = reached_under(f, bi)
+            cond = reached_under(f, bi, same_loop=True)
             ok = any(c[0] == "is_empty" and "children" in c[1] and c[2] for c in cond) and any(c[0] == "is_some" and "value" in c[1] and not c[2] for c in cond)
             ck.ob("DOM", f.path, "ancestor-removed-only-if-empty-and-unlocked#%d" % n, ok,
                   "an ancestor lock-trie node is freed only when it has no children left and holds no lock" if ok else
